@@ -164,6 +164,12 @@ class Fn:
             return "(¬ %s)" % self.prop(n["inner"][0], env)
         if k == "CXXBoolLiteralExpr":
             return "True" if n["value"] else "False"
+        if k == "DeclRefExpr" and n.get("referencedDecl", {}).get("kind") in ("VarDecl", "ParmVarDecl") \
+                and is_bool_type(n.get("referencedDecl", {}).get("type", {}).get("qualType", "")):
+            return "(%s = true)" % self.expr(n, env)
+        if k == "ConditionalOperator":
+            c, a, b = n["inner"]
+            return "(if %s then %s else %s)" % (self.prop(c, env), self.prop(a, env), self.prop(b, env))
         if k == "CXXMemberCallExpr":
             return "(%s = true)" % self.expr(n, env)
         raise Untranslatable("condition kind " + str(k))
@@ -243,7 +249,33 @@ class Fn:
             raise Untranslatable("call statement")
         if k == "NullStmt":
             return self.stmts(rest, env, ret, depth)
+        if k == "DeclStmt":
+            # `const T x = e;` : a let; several declarators in one statement are taken in order
+            out, env2 = "", dict(env)
+            for v in s.get("inner", []):
+                if v.get("kind") != "VarDecl":
+                    raise Untranslatable("declaration of " + str(v.get("kind")))
+                init = [c for c in v.get("inner", []) if c.get("kind") not in ("FullComment",)]
+                if len(init) != 1:
+                    raise Untranslatable("local without initialiser: " + v.get("name", "?"))
+                qt = v.get("type", {}).get("qualType", "")
+                if is_bool_type(qt):
+                    out += "let %s : Bool := %s\n%s" % (ident(v["name"]), self.boolean(init[0], env2), ind)
+                elif is_int_type(qt):
+                    out += "let %s : Int := %s\n%s" % (ident(v["name"]), self.expr(init[0], env2), ind)
+                else:
+                    raise Untranslatable("local of type " + qt)
+                env2[v["name"]] = ident(v["name"])
+            return out + self.stmts(rest, env2, ret, depth)
         raise Untranslatable("statement kind " + str(k))
+
+
+def is_bool_type(qt):
+    return qt.replace("const", "").strip() == "bool"
+
+
+def is_int_type(qt):
+    return qt.replace("const", "").strip() in ("qint64", "long long", "qlonglong")
 
 
 class NbFn(Fn):
@@ -265,6 +297,9 @@ class NbFn(Fn):
         return None
 
     def expr(self, n, env):
+        m0 = strip(n)
+        if m0.get("kind") == "DeclRefExpr" and str(env.get(m0.get("referencedDecl", {}).get("name"), "")).startswith("$wr:"):
+            raise Untranslatable("result of dest->write used as a value")
         dc = self.dev_call(n)
         if dc:
             dev, meth, args = dc
@@ -285,7 +320,20 @@ class NbFn(Fn):
             return "(i.atEnd = true)"
         if m.get("kind") == "MemberExpr" and strip(m["inner"][0]).get("kind") == "CXXThisExpr" and m["name"] == "stopped":
             return "(i.stopped = true)"
+        if m.get("kind") == "BinaryOperator" and m["opcode"] in ("==", "!="):
+            a, b = strip(m["inner"][0]), strip(m["inner"][1])
+            for x, y in ((a, b), (b, a)):
+                if x.get("kind") == "DeclRefExpr" and str(env.get(x.get("referencedDecl", {}).get("name"), "")).startswith("$wr:"):
+                    if self.is_minus_one(y):
+                        nexpr = env[x["referencedDecl"]["name"]][4:]
+                        return ("(i.writeFails %s = true)" if m["opcode"] == "==" else "(¬ (i.writeFails %s = true))") % nexpr
+                    raise Untranslatable("result of dest->write compared with something other than -1")
         return Fn.prop(self, n, env)
+
+    def is_minus_one(self, n):
+        n = strip(n)
+        return n.get("kind") == "UnaryOperator" and n.get("opcode") == "-" and strip(n["inner"][0]).get("kind") == "IntegerLiteral" \
+            and strip(n["inner"][0]).get("value") == "1"
 
     def stmts(self, ss, env, ret, depth=0):
         ind = "  " * (depth + 2)
@@ -301,12 +349,18 @@ class NbFn(Fn):
         if k == "DeclStmt":
             v = s0["inner"][0]
             init = [c for c in v.get("inner", []) if c.get("kind") not in ("FullComment",)]
-            if init and strip(init[0]).get("kind") not in ("CXXConstructExpr",):
-                val = self.expr(init[0], env)
-                env2 = dict(env); env2[v["name"]] = ident(v["name"])
-                return "let %s : Int := %s\n%s%s" % (ident(v["name"]), val, ind, self.stmts(rest, env2, ret, depth))
-            self.locals_skipped = getattr(self, "locals_skipped", set()) | {v["name"]}
-            return self.stmts(rest, env, ret, depth)
+            if len(s0["inner"]) == 1 and init:
+                dc = self.dev_call(init[0])
+                if dc and dc[:2] == ("dest", "write"):
+                    # `const qint64 w = dest->write(data, n);` : the write happens here; `w` may only
+                    # be compared with -1 afterwards (anything else is untranslatable)
+                    nexpr = self.expr(dc[2][-1], env)
+                    env2 = dict(env); env2["$acts"] = "acts"; env2[v["name"]] = "$wr:" + nexpr
+                    return "let acts : List Act := %s ++ [.write %s]\n%s%s" % (acts, nexpr, ind, self.stmts(rest, env2, ret, depth))
+            if not init or strip(init[0]).get("kind") in ("CXXConstructExpr",):
+                self.locals_skipped = getattr(self, "locals_skipped", set()) | {v["name"]}
+                return self.stmts(rest, env, ret, depth)
+            return Fn.stmts(self, ss, env, ret, depth)
         if k == "CXXMemberCallExpr":
             callee = strip(s0["inner"][0])
             base = strip(callee["inner"][0]) if callee.get("inner") else {}
@@ -315,6 +369,17 @@ class NbFn(Fn):
             if callee.get("kind") == "MemberExpr" and base.get("kind") == "MemberExpr" and base.get("name") == "q":
                 if callee["name"] in ("error", "finished"):
                     return push(".%s" % ("error" if callee["name"] == "error" else "finished"))
+            if callee.get("kind") == "MemberExpr" and base.get("kind") == "CXXThisExpr" and callee["name"] in getattr(self, "helpers", {}):
+                # a private helper of the same class: inlined, provided it has no `return` and does not
+                # use its parameters in anything translated (they only carry the error text)
+                hb = self.flatten(body_of(self.helpers[callee["name"]]))
+                if has_kind(self.helpers[callee["name"]], "ReturnStmt") or callee["name"] in getattr(self, "inlining", ()):
+                    raise Untranslatable("helper %s cannot be inlined" % callee["name"])
+                self.inlining = getattr(self, "inlining", ()) + (callee["name"],)
+                try:
+                    return self.stmts(hb + rest, env, ret, depth)
+                finally:
+                    self.inlining = self.inlining[:-1]
             raise Untranslatable("call statement " + str(callee.get("name")))
         if k == "CallExpr":
             fn = strip(s0["inner"][0])
@@ -340,6 +405,8 @@ class NbFn(Fn):
             b = self.stmts(self.flatten(els) + rest, dict(env), ret, depth + 1)
             return "if %s then\n%s  %s\n%selse\n%s  %s" % (self.prop(parts[0], env), ind, a, ind, ind, b)
         if k == "ReturnStmt":
+            if s0.get("inner"):
+                raise Untranslatable("return with a value")
             return ret(env)
         if k == "CompoundAssignOperator" and s0["opcode"] in ("-=", "+="):
             lhs = strip(s0["inner"][0])
@@ -350,6 +417,12 @@ class NbFn(Fn):
                 env2 = dict(env); env2[nm] = ident(nm)
                 return "let %s : Int := %s\n%s%s" % (ident(nm), val, ind, self.stmts(rest, env2, ret, depth))
         return Fn.stmts(self, ss, env, ret, depth)
+
+
+def has_kind(n, kind):
+    if n.get("kind") == kind:
+        return True
+    return any(has_kind(c, kind) for c in n.get("inner", []) or [])
 
 
 def body_of(decl):
@@ -472,6 +545,41 @@ def if_chain_table(decl, enums):
         if c.get("kind") == "IfStmt":
             before = len(out)
             walk(c)
+    return out
+
+
+def init_list_table(decl, enums):
+    """static const struct { const char *token; Socket::Method method; } T[] = { {"LIT", Socket::X}, ... };
+    scanned by a loop that takes the first equal token  ->  [(lit, int)] in order"""
+    out = []
+    def enum_of(m):
+        if m.get("kind") == "DeclRefExpr" and m.get("referencedDecl", {}).get("kind") == "EnumConstantDecl":
+            return m["referencedDecl"]["name"]
+        for c in m.get("inner", []) or []:
+            r = enum_of(c)
+            if r is not None:
+                return r
+        return None
+    def walk(n):
+        if n.get("kind") == "VarDecl":
+            for c in n.get("inner", []) or []:
+                if c.get("kind") == "InitListExpr":
+                    rows = [r for r in c.get("inner", []) if r.get("kind") == "InitListExpr"]
+                    got = []
+                    for r in rows:
+                        cells = r.get("inner", [])
+                        if len(cells) != 2:
+                            return
+                        lit, en = string_literal(cells[0]), enum_of(cells[1])
+                        if lit is None or en is None or en not in enums:
+                            return
+                        got.append((lit, enums[en]))
+                    if got and len(got) == len(rows):
+                        out.extend(got)
+            return
+        for c in n.get("inner", []) or []:
+            walk(c)
+    walk(body_of(decl))
     return out
 
 
@@ -629,6 +737,10 @@ def main():
         for d in pdocs:
             if d.get("kind") == "CXXMethodDecl" and body_of(d) is not None:
                 chain = if_chain_table(d, senums)
+                if not chain:
+                    chain = init_list_table(d, senums)
+                if not chain:
+                    failed.append("Parser::parseRequestHeaders (no method-token chain or table found)")
                 vers = version_literals(d)
                 tab.append("/-- the token chain of `Parser::parseRequestHeaders`, in order -/")
                 tab.append("def methodTokens : List (List UInt8 × Int) :=\n  [" + ",\n   ".join("(%s, %d)" % (lean_bytes(l), v) for l, v in chain) + "]")
@@ -653,13 +765,34 @@ def main():
 
     # ------------------------------------------------------------------ qiodevicecopier.cpp: nextBlock
     try:
-        docs = clang_ast(repo, "qiodevicecopier.cpp", "QIODeviceCopierPrivate::nextBlock", exp)
+        docs = clang_ast(repo, "qiodevicecopier.cpp", "QHttpEngine::QIODeviceCopierPrivate", exp)
         out = [HEADER % "src/src/qiodevicecopier.cpp", "namespace QhttpGen.Copier\n",
                "/-- what one call of `nextBlock()` does, in order -/\ninductive Act\n  | write (n : Int)      -- dest->write(data, n)\n  | error | finished | requeue\nderiving DecidableEq, Repr\n",
                "/-- the private members read and what the two devices answer during this call -/\nstructure In where\n  stopped : Bool\n  bufferSize : Int\n  rangeTo : Int\n  readResult : Int            -- src->read(data, bufferSize)\n  pos : Int                   -- src->pos() after the read\n  atEnd : Bool                -- src->atEnd() after the read\n  writeFails : Int → Bool     -- dest->write(data, n) == -1\n"]
+        helpers = {}
+        def collect(n):
+            if n.get("kind") == "CXXMethodDecl" and body_of(n) is not None and n.get("name") != "nextBlock":
+                helpers[n["name"]] = n
+            for c in n.get("inner", []) or []:
+                if c.get("kind") in ("CXXRecordDecl", "CXXMethodDecl", "NamespaceDecl"):
+                    collect(c)
         for d in docs:
-            if d.get("kind") == "CXXMethodDecl" and body_of(d) is not None:
+            collect(d)
+        nbs = []
+        def find_nb(n):
+            if n.get("kind") == "CXXMethodDecl" and n.get("name") == "nextBlock" and body_of(n) is not None:
+                nbs.append(n)
+            for c in n.get("inner", []) or []:
+                if c.get("kind") in ("CXXRecordDecl", "NamespaceDecl"):
+                    find_nb(c)
+        for d in docs:
+            find_nb(d)
+        if not nbs:
+            failed.append("QIODeviceCopierPrivate::nextBlock (not found)")
+        for d in nbs[:1]:
+            if True:
                 f = NbFn()
+                f.helpers = helpers
                 try:
                     body = f.stmts(f.flatten(body_of(d)), {}, lambda env: env.get("$acts", "([] : List Act)"))
                     out.append("/-- `QIODeviceCopierPrivate::nextBlock()` -/\ndef nextBlock (i : In) : List Act :=\n    %s\n" % body)
